@@ -323,6 +323,21 @@ pub fn value_case(c: &ValueCase, obs: &mut Obs) -> PResult {
         }
     }
     let kn = ["two", "upper", "lower"][(c.kind % 3) as usize];
+    // degenerate two-sided intervals [x, x] are legitimate values (constant samples, tied quantiles)
+    {
+        let d = Interval::new(c.i.0, c.i.0).unwrap();
+        let (j, cb) = roundtrips("Interval<i32>", &d)?;
+        ensure!(j == d && cb == d, "C20/Interval<i32>/degenerate", "restored {j:?} / {cb:?} != original {d:?}");
+        if c.f.0.is_finite() {
+            let d = Interval::new(c.f.0, c.f.0).unwrap();
+            let (j, cb) = roundtrips("Interval<f64>", &d)?;
+            ensure!(j == d && cb == d, "C20/Interval<f64>/degenerate", "restored {j:?} / {cb:?} != original {d:?}");
+        }
+        let d = Interval::new(c.s.0.clone(), c.s.0.clone()).unwrap();
+        let (j, cb) = roundtrips("Interval<String>", &d)?;
+        ensure!(j == d && cb == d, "C20/Interval<String>/degenerate", "restored {j:?} / {cb:?} != original {d:?}");
+        obs.class("Interval/degenerate");
+    }
     if c.f.0.is_finite() && c.f.1.is_finite() {
         let i = mk(c.kind, c.f.0, c.f.1);
         let (j, cb) = roundtrips("Interval<f64>", &i)?;
@@ -480,7 +495,7 @@ fn main() {
     for t in TYPES {
         run.require_class(&format!("state/{t}"));
     }
-    for c in ["state-with-count>=2^32", "state-with-nonzero-compensation", "Interval<f64>/upper", "Interval<i32,String>/lower", "Confidence/upper one-sided", "feature_build/std_serde", "feature_build/all"] {
+    for c in ["Interval/degenerate", "state-with-count>=2^32", "state-with-nonzero-compensation", "Interval<f64>/upper", "Interval<i32,String>/lower", "Confidence/upper one-sided", "feature_build/std_serde", "feature_build/all"] {
         run.require_class(c);
     }
     run.assumptions.push("serde_json is built with float_roundtrip (otherwise its parser may be 1 ulp off and the harness, not the crate, would fail); CBOR via ciborium carries floats bit-exactly".into());
